@@ -708,4 +708,20 @@ def srchash_ParseVector : String := "6ba832cb7d7b2587"
 /-- sha256 of the printed source of split (/repo/20/cvss20.go:79:1) -/
 def srchash_split : String := "878dcaa8ae6b288d"
 
+/-- package-level variables (name:type) -/
+def pkg_vars : List String :=
+  ["ErrInvalidMetricOrder:error", "ErrInvalidMetricValue:error", "ErrTooShortVector:error", "order:[][]string", "splitPool:sync.Pool"]
+
+/-- function:variable for every assignment to (or address-of) a package-level variable inside a function body -/
+def pkg_writes : List String :=
+  []
+
+/-- function:variable.method for every method call on a package-level variable; function:go for goroutine starts -/
+def pkg_calls : List String :=
+  ["ParseVector:splitPool.Get", "ParseVector:splitPool.Put"]
+
+/-- function:unsafe.X for every use of package unsafe -/
+def pkg_unsafe : List String :=
+  ["CVSS20.Vector:unsafe.Pointer"]
+
 end GenV20
